@@ -41,19 +41,21 @@ def get_dimensions6(o_dim, ri_dim):
     if ri_dim < o_dim:
         o_dim -= 1
 
-    if o_dim >= 3 and ri_dim >= 3:
-        h_dim = 2
-    elif o_dim >= 4 or ri_dim >= 4:
+    # Position of the rows and columns once the real/imaginary axis is removed
+    # (same as get_dimensions5), then shifted by one if that axis sits at or
+    # before them
+    if o_dim <= 2:
         h_dim = 3
     else:
-        h_dim = 4
-
-    if o_dim >= 4 and ri_dim >= 4:
-        w_dim = 3
-    elif o_dim >= 4 or ri_dim >= 4:
+        h_dim = 2
+    if o_dim <= 3:
         w_dim = 4
     else:
-        w_dim = 5
+        w_dim = 3
+    if ri_dim <= h_dim:
+        h_dim += 1
+    if ri_dim <= w_dim:
+        w_dim += 1
 
     return o_dim, ri_dim, h_dim, w_dim
 
